@@ -1136,6 +1136,60 @@ Lemma lazy_no_work p : lazy p = true ->
   end.
 Proof. destruct p; cbn; try discriminate; auto. Qed.
 
+(** * 9b. After the renewal: what subsequent handshakes find *)
+Lemma last_in (l : list cert) d : l <> [] -> In (last l d) l.
+Proof.
+  revert d; induction l as [|x l IH]; intros d N; [congruence|].
+  destruct l as [|x' l']; [left; reflexivity|]. right. apply IH. discriminate.
+Qed.
+
+Lemma lookup_in l y : lookup l = Some y -> In y l.
+Proof.
+  unfold lookup. destruct l as [|a [|b r]]; [discriminate| |].
+  - intros H; inv H. left; reflexivity.
+  - destruct (find (fun c => negb (expired c)) (a :: b :: r)) as [z|] eqn:F; intros H.
+    + inv H. apply find_some in F as [F _]. exact F.
+    + injection H as E. rewrite <- E.
+      change (In (last (a :: b :: r) (Cert O Valid false)) (a :: b :: r)). apply last_in. discriminate.
+Qed.
+
+Lemma lookup_some l : l <> [] -> exists y, lookup l = Some y.
+Proof.
+  unfold lookup. destruct l as [|a [|b r]]; [congruence|eauto|].
+  intros _. destruct (find _ _); eauto.
+Qed.
+
+(** once the renewal has completed (the reload step of the worker), the cache lookup of any
+    subsequent handshake for the name yields a certificate, and it is not the old one *)
+Theorem after_renewal_lookup_is_new s t th ch c bg s0 b s' :
+  t_pc th = PRenReload ch c bg -> store s (t_name th) = Some s0 -> gen s0 <> gen c ->
+  thread_step s t th (AStep b) = Some s' ->
+  exists y, lookup (cache s' (t_name th)) = Some y /\ gen y <> gen c.
+Proof.
+  intros P St Ng H.
+  destruct (renewed_cert_is_cached s t th ch c bg s0 b P St Ng) as (s1 & H1 & A & B).
+  rewrite H in H1. inv H1.
+  assert (NE : cache s1 (t_name th) <> []).
+  { intros E. rewrite E in A. discriminate. }
+  destruct (lookup_some _ NE) as [y Hy]. exists y. split; [exact Hy|].
+  apply lookup_in in Hy. intros E.
+  assert (X : existsb (cert_eqb c) (cache s1 (t_name th)) = true).
+  { apply existsb_exists. exists y. split; [exact Hy|]. unfold cert_eqb. rewrite E. apply Nat.eqb_refl. }
+  congruence.
+Qed.
+
+(** ... so a handshake arriving then (first entry or re-entry after a wait) goes on with that
+    certificate: its first step leads to the maintenance of y or returns y *)
+Theorem after_renewal_handshake_gets_new s t th load b y :
+  t_pc th = PStart load -> lookup (cache s (t_name th)) = Some y ->
+  exists s' th', thread_step s t th (AStep b) = Some s' /\ thr s' t = Some th' /\
+    (t_pc th' = PMaint y \/ t_pc th' = PRet (RCert y)).
+Proof.
+  intros P L. unfold thread_step. cbv beta zeta. rewrite P, L. destruct load.
+  - eexists. eexists. split; [reflexivity|]. cbn. rewrite upd_same. split; [reflexivity|]. left; reflexivity.
+  - eexists. eexists. split; [reflexivity|]. cbn. rewrite upd_same. split; [reflexivity|]. right; reflexivity.
+Qed.
+
 (** * 10. The history of a served expired certificate: a goroutine's [t_waited] is the channel whose
     close woke it last; channels never re-open *)
 Ltac split_step H :=
